@@ -182,21 +182,30 @@ def matchstr(c: Cursor, match: Callable[[str, int], int]) -> str | None:
     return c.textstr[i:p]
 
 
+def _asint(c: Cursor, s: str) -> int | None:
+    try:
+        return int(s)
+    except ValueError:
+        # NOTE: more digits than int() converts (sys.get_int_max_str_digits()): no match
+        c.goto(c.pos - len(s))
+        return None
+
+
 def matchint(c: Cursor) -> int | None:
     if (s := matchstr(c, match_int)) is not None:
-        return int(s)
+        return _asint(c, s)
     return None
 
 
 def matchuint(c: Cursor) -> int | None:
     if (s := matchstr(c, match_uint)) is not None:
-        return int(s)
+        return _asint(c, s)
     return None
 
 
 def matchsigned(c: Cursor) -> int | None:
     if (s := matchstr(c, match_int)) is not None:
-        return int(s)
+        return _asint(c, s)
     return None
 
 
